@@ -269,3 +269,74 @@ Definition hasattr_node_classes (rho : env) (n : expr) : list N :=
 
 (** * lost parentheses (combine folds, invert): the printed replacement does not parse back to the tree that was built *)
 Definition parens_ok (e' : expr) : bool := paren_safe e'.
+
+(** * top-down transformers ([td f]): the nodes where the node function answers, with the environment in force there *)
+Fixpoint tvisit (f : expr -> option expr) (rho : env) (e : expr) : list (env * expr) :=
+  let vs := fix vs (es : list expr) : list (env * expr) := match es with [] => [] | a :: t => tvisit f rho a ++ vs t end in
+  match f e with
+  | Some _ => [(rho, e)]
+  | None =>
+      match e with
+      | EName _ | EConst _ | EType _ => []
+      | ETuple es | EList es | ESet es => vs es
+      | EMeth _ _ args | ECall _ args => vs args
+      | EBool _ _ l r | EFloorDiv l r => tvisit f rho l ++ tvisit f rho r
+      | ENot _ a | EJuxt _ a => tvisit f rho a
+      | ECmp _ l rest => tvisit f rho l ++
+                         (fix go (rs : list (cmpop * expr)) : list (env * expr) :=
+                            match rs with [] => [] | (_, b) :: t => tvisit f rho b ++ go t end) rest
+      | EListComp elt x it | EGen _ elt x it =>
+          tvisit f rho it ++ under_binder rho x it (fun rho' => tvisit f rho' elt)
+      end
+  end.
+Definition tguard (f : expr -> option expr) (ok : env -> expr -> bool) (rho : env) (e : expr) : bool :=
+  forallb (fun rn => ok (fst rn) (snd rn)) (tvisit f rho e).
+
+Definition kf_empty_seq_other_type : N := 14.    (* x == [] -> not x, x not a list (x == () -> not x, x not a tuple) *)
+Definition kf_empty_seq_lost_parens : N := 15.   (* pinned: the new `not x` dropped the comparison's parentheses *)
+Definition kf_identity_differs : N := 16.        (* x is <literal> -> x == <literal>: identity and equality disagree *)
+
+(** * fix-empty-sequence-comparison: what an observer of the rewritten position sees: the value, or, for the test of an `if`,
+    only its truth value *)
+Definition test_obs (r : result) : result := match r with Val v => Val (VBool (truthy v)) | Raise x => Raise x end.
+(** the compared value is of the literal's own type (a list for `[]`, a tuple for `()`), or its evaluation raises *)
+Definition same_kind (rho : env) (lt x : expr) : bool :=
+  match eval rho x with
+  | Val (VList _) => match lt with EList _ => true | _ => false end
+  | Val (VTuple _) => match lt with ETuple _ => true | _ => false end
+  | Val _ => false
+  | Raise _ => true
+  end.
+Definition empty_seq_action_ok (rho : env) (a : es_action) : bool :=
+  match a with
+  | ES_not _ lt x | ES_bool lt x | ES_bare lt x => same_kind rho lt x
+  | ES_none | ES_raises => true
+  end.
+Definition empty_seq_node_ok (rho : env) (n : expr) : bool := empty_seq_action_ok rho (empty_seq_action false n).
+Definition empty_seq_guard (cfg : empty_seq_cfg) (in_test : bool) (rho : env) (e : expr) : bool :=
+  match e with
+  | ECmp _ _ _ => empty_seq_action_ok rho (empty_seq_action in_test e)
+  | _ => tguard (empty_seq_f cfg) empty_seq_node_ok rho e
+  end.
+Definition empty_seq_classes (cfg : empty_seq_cfg) (in_test : bool) (rho : env) (e : expr) : list N :=
+  let sites := match e with
+               | ECmp _ _ _ => [(rho, empty_seq_action in_test e)]
+               | _ => map (fun rn => (fst rn, empty_seq_action false (snd rn))) (tvisit (empty_seq_f cfg) rho e)
+               end in
+  if existsb (fun ra => negb (empty_seq_action_ok (fst ra) (snd ra))) sites then [kf_empty_seq_other_type] else [].
+
+(** * literal-or-new-object-identity: at every rewritten comparison `is` and `==` (`is not` and `!=`) give the same answer *)
+Definition cres_eqb (a b : cres) : bool :=
+  match a, b with CB x, CB y => Bool.eqb x y | CX x, CX y => exn_eqb x y | _, _ => false end.
+Definition identity_node_ok (rho : env) (n : expr) : bool :=
+  match n, identity_f n with
+  | ECmp _ l [(o, c)], Some (ECmp _ _ [(o', _)]) =>
+      match eval rho l, eval rho c with
+      | Val v, Val w => cres_eqb (cmp_op o v w) (cmp_op o' v w)
+      | _, _ => true
+      end
+  | _, _ => true
+  end.
+Definition identity_guard : env -> expr -> bool := tguard identity_f identity_node_ok.
+Definition identity_classes (rho : env) (e : expr) : list N :=
+  if forallb (fun rn => identity_node_ok (fst rn) (snd rn)) (tvisit identity_f rho e) then [] else [kf_identity_differs].
